@@ -131,7 +131,8 @@ def step (toks : List String) : IO String := do
        | .ok es w => "ok:" ++ toString es.length ++ ":" ++ (if w then "w" else "n")
        | .errorOld => "old"
        | .errorSeek fc => if fc then "abort" else "seek"
-       | .undefined => "undefined") ++ ":" ++ tail)
+       | .undefined => "undefined") ++ ":" ++ tail ++ ":" ++
+        (if pos == "fresh" then "-" else if noFakeTrailer img (natOf pos + 12) then "R" else "x"))
     return " ".intercalate res
   | ["crashimg", file, pos, datafile, k, out] =>
     let f ← if file == "-" then pure [] else readBytes file
@@ -143,6 +144,9 @@ def step (toks : List String) : IO String := do
     -- interval cadence on IEEE doubles: sign, interval, next, boundary times (16 hex digits each)
     let sign : Float := if sg == "-1" then -1.0 else 1.0
     let r := RV.Cadence.run RV.Cadence.floatOps sign (RV.floatOfHex iv) (RV.floatOfHex nx) (ts.map RV.floatOfHex)
+    return String.ofList (r.1.map (fun b => if b then '1' else '0')) ++ " " ++ RV.floatToHex r.2
+  | "cadwall" :: iv :: nx :: ws =>
+    let r := RV.Cadence.runWall RV.Cadence.floatOps (RV.floatOfHex iv) (RV.floatOfHex nx) (ws.map RV.floatOfHex)
     return String.ofList (r.1.map (fun b => if b then '1' else '0')) ++ " " ++ RV.floatToHex r.2
   | "cadstep" :: st :: nx :: ts =>
     let r := RV.Cadence.runStep (natOf st) (natOf nx) (ts.map natOf)
